@@ -173,7 +173,11 @@ func (g *genState) genDeps(t *rapid.T, life int) (deps []DepSpec, needIn bool) {
 			sortGroupKeys(cands)
 			gk := rapid.SampledFrom(cands).Draw(t, "gdep")
 			g.closedGrp[gk] = true
-			deps = append(deps, DepSpec{T: gk.T, Group: gk.Group})
+			gd := DepSpec{T: gk.T, Group: gk.Group}
+			if rapid.IntRange(0, 5).Draw(t, "groupAndName") == 0 {
+				gd.Key = "alsonamed" // a group field that also carries a name tag: filled from the group, the name is ignored
+			}
+			deps = append(deps, gd)
 		case k == 7: // built-in
 			if !g.o.Builtins {
 				continue
@@ -413,13 +417,32 @@ func GenConfig(t *rapid.T, o GenOpts) *Config {
 		genEmbeds(t, regs)
 	}
 	if o.Drops {
-		genDrops(t, regs)
+		regs = genDrops(t, regs)
 	}
-	// shuffle registration order
+	// shuffle registration order (a registration that re-registers a removed identity stays behind the remover)
 	perm := rapid.Permutation(seq(len(regs))).Draw(t, "regorder")
 	cfg := &Config{}
 	for _, i := range perm {
 		cfg.Regs = append(cfg.Regs, regs[i])
+	}
+	for changed := true; changed; {
+		changed = false
+		pos := map[int]int{}
+		for i, r := range cfg.Regs {
+			pos[r.ID] = i
+		}
+		for i, r := range cfg.Regs {
+			for _, before := range r.After {
+				if j, ok := pos[before]; ok && j > i {
+					cfg.Regs[i], cfg.Regs[j] = cfg.Regs[j], cfg.Regs[i]
+					changed = true
+					break
+				}
+			}
+			if changed {
+				break
+			}
+		}
 	}
 	if o.PreBuild && len(cfg.Regs) >= 2 && rapid.IntRange(0, 3).Draw(t, "prebuild") == 0 {
 		cfg.PreBuild = rapid.IntRange(1, len(cfg.Regs)-1).Draw(t, "prebuildN")
@@ -440,6 +463,34 @@ func (g *genState) genDepsExcludingOwnGroups(t *rapid.T, r Reg) ([]DepSpec, bool
 		}
 	}
 	deps, needIn := g.genDeps(t, r.Life)
+	// a member of one group of T often consumes ANOTHER group of the same T (validators that run
+	// the rules, ...): member ordinals of the two groups coincide, their identities do not
+	var siblings []groupKey
+	for gk := range hidden {
+		for other, lifes := range g.groups {
+			if other.T != gk.T || other.Group == gk.Group {
+				continue
+			}
+			ok := true
+			if r.Life != Scoped {
+				for _, l := range lifes {
+					if l == Scoped {
+						ok = false
+					}
+				}
+			}
+			if ok {
+				siblings = append(siblings, other)
+			}
+		}
+	}
+	if len(siblings) > 0 && len(deps) < g.o.MaxDeps+1 && rapid.Bool().Draw(t, "siblingGroup") {
+		sortGroupKeys(siblings)
+		gk := rapid.SampledFrom(siblings).Draw(t, "siblingGroupKey")
+		g.closedGrp[gk] = true
+		deps = append(deps, DepSpec{T: gk.T, Group: gk.Group})
+		needIn = true
+	}
 	for gk, v := range hidden {
 		g.groups[gk] = v
 	}
@@ -513,7 +564,7 @@ func GenKindsConfig(t *rapid.T) *Config {
 // identity nobody depends on is dropped, at least one real output stays, and
 // Remove(T) is only used for a type that has no keyed or grouped registration
 // (its documentation and its implementation disagree about those).
-func genDrops(t *rapid.T, regs []Reg) {
+func genDrops(t *rapid.T, regs []Reg) []Reg {
 	needed := map[Ident]bool{}
 	typeHasKeyedOrGroup := map[int]bool{}
 	for _, r := range regs {
@@ -528,6 +579,13 @@ func genDrops(t *rapid.T, regs []Reg) {
 			}
 		}
 	}
+	nextID := 0
+	for _, r := range regs {
+		if r.ID >= nextID {
+			nextID = r.ID + 1
+		}
+	}
+	var again []Reg
 	for i := range regs {
 		r := &regs[i]
 		all := r.AllProvides()
@@ -556,6 +614,22 @@ func genDrops(t *rapid.T, regs []Reg) {
 		if len(cand) == 0 || rapid.IntRange(0, 2).Draw(t, "drop") != 0 {
 			continue
 		}
-		r.Dropped = map[int]bool{rapid.SampledFrom(cand).Draw(t, "dropIdx"): true}
+		k := rapid.SampledFrom(cand).Draw(t, "dropIdx")
+		r.Dropped = map[int]bool{k: true}
+		{
+			// half of the time somebody else registers the removed identity again (the
+			// documented way of replacing one service of a module by a mock)
+			if rapid.Bool().Draw(t, "reAdd") {
+				id := all[k].Ident
+				impl := id.T
+				if IsIface(impl) {
+					impl = rapid.IntRange(0, NumD-1).Draw(t, "reAddImpl")
+				}
+				again = append(again, Reg{ID: nextID, Life: rapid.IntRange(0, 2).Draw(t, "reAddLife"), Form: FormPlain,
+					Outs: []OutSpec{{T: id.T, Impl: impl}}, Name: id.Key, HasErr: rapid.Bool().Draw(t, "reAddErr"), After: []int{r.ID}})
+				nextID++
+			}
+		}
 	}
+	return append(regs, again...)
 }
